@@ -168,6 +168,17 @@ func vfSrvMake(scn string) (func(), func(*vsched.Exec) (string, *vsched.Violatio
 		if st.stopErr != nil || st.serveErr != nil {
 			viol("C20/error", fmt.Sprintf("Stop err=%v Serve err=%v", st.stopErr, st.serveErr))
 		}
+		// C14: replies of concurrently processed requests are never interleaved or corrupted, and
+		// every reply goes to the subject of its own request
+		for _, m := range st.conn.Log {
+			if strings.HasPrefix(m.Subject, "reply.") && m.Header.Get("Status") == "" {
+				id, _ := strconv.Atoi(strings.TrimPrefix(m.Subject, "reply."))
+				want := []byte{0, 0, 0, 1, byte(id)}
+				if string(m.Data) != string(want) {
+					viol("C14/reply-corrupted-or-misrouted", fmt.Sprintf("the reply published for request %d is % x, expected % x (workers share or interleave output)", id, m.Data, want))
+				}
+			}
+		}
 		for id := range st.routedBefore {
 			if st.invoked[id] != 1 {
 				viol("C20/accepted-request-lost-or-duplicated", fmt.Sprintf("request %d was received before Stop was called but processed %d times", id, st.invoked[id]))
@@ -201,7 +212,7 @@ func vfSrvMake(scn string) (func(), func(*vsched.Exec) (string, *vsched.Violatio
 func init() {
 	vfRegister(&vfHarness{
 		Name:  "natssrv",
-		Props: []string{"C20"},
+		Props: []string{"C20", "C14"},
 		Scenarios: func(tier string) []string {
 			var out []string
 			ws, qs, rs := []int{1, 2}, []int{0, 1, 2}, []int{2}
